@@ -37,10 +37,6 @@ def impl_parse_many(texts):
 
 def model_parse(model, text):
     """('ok', tree) | ('parse-error'|'invalid', msg) | ('unsupported', msg)"""
-    try:
-        text.encode('latin-1')
-    except UnicodeEncodeError:
-        return ('unsupported', 'non-latin-1 text')
     ans = model.ask('parse', text)
     if ans.startswith('ok '):
         return ('ok', sexp.loads(ans[3:]))
